@@ -211,7 +211,7 @@ def _shapes(v1=False, seed=7):
     return out
 
 
-def make_device(shape, seed=11):
+def make_device(shape, seed=11, also=()):
     rng = random.Random(seed)
     fw_hash_ids = [0x01, 0x02, 0x03, 0x05, 0x81, 0x82, 0x84]
     cfg = dict(platform="ledger", mode=MODE_SIGNER,
@@ -219,6 +219,9 @@ def make_device(shape, seed=11):
                state={"hashes": {h: rng.randbytes(32) for h in fw_hash_ids},
                       "difficulty": rng.getrandbits(200), "flags": (1, 0, 1)},
                chunk=ChunkPolicy("fw", 80))
-    for k, v in shape.devcfg.items():
-        cfg[k] = dict(v) if isinstance(v, dict) else v
+    # `also`: shapes of follow-up requests; the device must be able to answer
+    # those too (e.g. heartbeat material). The main shape's settings win.
+    for sh in list(also) + [shape]:
+        for k, v in sh.devcfg.items():
+            cfg[k] = dict(v) if isinstance(v, dict) else v
     return SimDevice(**cfg)
